@@ -130,6 +130,16 @@ def scan_sites(root="/repo/doctrans"):
         for n in ast.walk(tree):
             if isinstance(n, ast.Assign) and len(n.targets) == 1 and isinstance(n.targets[0], ast.Name) and _setish(n.value):
                 bound[n.targets[0].id] = _setish(n.value)
+        # a set built at import time (module level) and handed on as a call argument: the callee may iterate it, and the shim cannot
+        # replace an object that already exists - not interceptable
+        top = {n.targets[0].id for n in tree.body if isinstance(n, ast.Assign) and len(n.targets) == 1
+               and isinstance(n.targets[0], ast.Name) and _setish(n.value)}
+        for n in ast.walk(tree):
+            if isinstance(n, ast.Call):
+                for a in list(n.args) + [k.value for k in n.keywords]:
+                    for sub in ast.walk(a):
+                        if isinstance(sub, ast.Name) and sub.id in top and not (isinstance(n.func, ast.Name) and n.func.id in ("len", "isinstance", "sorted")):
+                            out.append((os.path.basename(f), sub.lineno, "display", "module-level set %s passed to %s" % (sub.id, ast.unparse(n.func)[:40])))
         for n in ast.walk(tree):
             its = []
             if isinstance(n, (ast.For, ast.AsyncFor)):
